@@ -34,6 +34,7 @@
   (`k256S_keyOK_of_enrToPublic`, …) and for every key of fewer than 2^64 bytes (`k256S_keyOK`, …).
 -/
 import EnrVerif.Proofs.SchemeLemmas
+import EnrVerif.Proofs.Examples
 
 namespace EnrVerif
 
@@ -472,6 +473,83 @@ example : k256S.enrToPublic [] = .error (.custom .unknownSignature) ∧
     combS.enrToPublic [] = .error (.custom .unknownSignature) :=
   ⟨(needs_entry_error []).1 rfl |>.1, (needs_entry_error []).2.1 rfl,
    (needs_entry_error []).2.2 rfl rfl⟩
+
+/-! ### non-vacuity
+
+The equivalence theorems above are conditional on a record being accepted by one of the real key
+types; exhibiting such a record inside Lean would mean evaluating Keccak and curve arithmetic in the
+kernel, which is left to the compiled driver (`Tests/`, `Main.lean`).  What can be instantiated here:
+the isolation theorems, whose hypothesis is `Valid S r` for *any* scheme `S` — the toy record `r0` of
+`Proofs/ToyScheme.lean` (a valid record whose only key entry is `"t"`) — and the parser-level
+statements on concrete key encodings. -/
+
+/-- `r0` has neither a `secp256k1` nor an `ed25519` entry … -/
+example : Map.lookup r0.content kSecp = none ∧ Map.lookup r0.content kEd = none := by decide
+
+/-- … so although it is a valid record (of `tinyS`), every built-in key type rejects its encoding,
+    whatever follows it (`secp_rejects_ed_only`, `ed_rejects_secp_only`) -/
+example : (∃ e, decode k256S (r0.encode ++ [1, 2]) = .error e) ∧
+    (∃ e, decode libsecpS (r0.encode ++ [1, 2]) = .error e) :=
+  secp_rejects_ed_only tinyS r0 [1, 2] r0_valid (by decide)
+
+example : ∃ e, decode edS (r0.encode ++ [1, 2]) = .error e :=
+  ed_rejects_secp_only tinyS r0 [1, 2] r0_valid (by decide)
+
+/-- the decoders of the four key types, run on the 18 bytes of `r0`: "Unknown signature" -/
+example : decode k256S r0Bytes = .error (.custom .unknownSignature) ∧
+    decode libsecpS r0Bytes = .error (.custom .unknownSignature) ∧
+    decode edS r0Bytes = .error (.custom .unknownSignature) ∧
+    decode combS r0Bytes = .error (.custom .unknownSignature) := by decide +kernel
+
+example : k256S.enrToPublic r0.content = .error (.custom .unknownSignature) ∧
+    libsecpS.enrToPublic r0.content = .error (.custom .unknownSignature) :=
+  (needs_entry_error r0.content).1 (by decide)
+
+example : ∃ e, combS.enrToPublic r0.content = .error e :=
+  comb_needs_some_entry r0.content (by decide) (by decide)
+
+/-- `decode_k256_eq_libsecp` / `decode_secp_three`: the hypothesis on the pairs of the input holds
+    for `r0Bytes` (its pairs are those of `r0`: no `secp256k1` entry at all) -/
+example : decode k256S r0Bytes = decode libsecpS r0Bytes :=
+  decode_k256_eq_libsecp r0Bytes (fun c hc raw b rest h1 _ => by
+    have h0 := contentOf_of_decode tinyS r0Bytes r0 [] r0Bytes_decodes
+    rw [h0] at hc
+    cases hc
+    have : Map.lookup r0.content kSecp = none := by decide
+    rw [this] at h1
+    cases h1)
+
+/-- a content with a 33-byte `secp256k1` entry (tag `02`): the hypothesis "not a 65-byte form" of
+    `enrToPublic_k256_eq_libsecp` holds, the two back-ends read the same key or fail alike -/
+example :
+    let c : Content := [(kSecp, encBytes (2 :: List.replicate 32 1))]
+    k256S.enrToPublic c = libsecpS.enrToPublic c := by
+  intro c
+  apply enrToPublic_k256_eq_libsecp
+  intro raw b rest h1 h2
+  have hl : Map.lookup c kSecp = some (encBytes (2 :: List.replicate 32 1)) := by decide
+  rw [hl] at h1
+  cases h1
+  have hd : decodeBytes (encBytes (2 :: List.replicate 32 1)) false =
+      .ok (2 :: List.replicate 32 1, []) := by decide
+  rw [hd] at h2
+  cases h2
+  decide
+
+/-- the parsers agree on every 33-byte input (`decodePub_k256_eq_libsecp`: not 65 bytes, tag not 5) -/
+example : Secp.decodePubK256 (2 :: List.replicate 32 1) = Secp.decodePubLibsecp (2 :: List.replicate 32 1) :=
+  decodePub_k256_eq_libsecp _ (by decide) (by decide)
+
+example : Secp.decodePubLibsecp (5 :: List.replicate 32 1) = none :=
+  decodePub_libsecp_rejects_compact _ rfl
+
+/-- `comb_secp_same_verify` / `comb_ed_same_verify`: a 33-byte and a 32-byte key -/
+example : combS.enrKey (List.replicate 33 2) = kSecp ∧ combS.enrKey (List.replicate 32 2) = kEd :=
+  ⟨(comb_secp_same_verify (List.replicate 33 2) (by decide)).2.2.1,
+   (comb_ed_same_verify (List.replicate 32 2) (by decide)).2.2.1⟩
+
+/-- the laws hold of the toy scheme as well as of the built-in ones -/
+example : tinyS.Lawful ∧ k256S.Lawful := ⟨tinyS_lawful, builtin_schemes_lawful.1⟩
 
 end EnrVerif
 
